@@ -172,6 +172,10 @@ class Evaluator:
             return tuple(self.ev(e, env) for e in node.elts)
         if isinstance(node, ast.List):
             return [self.ev(e, env) for e in node.elts]
+        if isinstance(node, ast.Dict) and all(k_ is not None for k_ in node.keys):
+            return {self.ev(k_, env): self.ev(v_, env) for k_, v_ in zip(node.keys, node.values)}
+        if isinstance(node, ast.Set):
+            return {self.ev(e, env) for e in node.elts}
         if isinstance(node, ast.IfExp):
             return self.ev(node.body, env) if self.ev(node.test, env) else self.ev(node.orelse, env)
         if isinstance(node, ast.JoinedStr):
@@ -232,6 +236,8 @@ class Evaluator:
                     raise PyRaise("ValueError", str(err))
                 except TypeError as err:
                     raise PyRaise("TypeError", str(err))
+            if name in ("set", "dict", "frozenset", "zip", "sum"):
+                return {"set": set, "dict": dict, "frozenset": frozenset, "zip": lambda *xs: list(zip(*xs)), "sum": sum}[name](*args, **kw)
             if name in ("min", "max", "range", "str", "bool", "tuple", "list", "reversed", "enumerate", "isinstance", "any", "all", "sorted", "repr"):
                 if name == "isinstance":
                     t = args[1]
@@ -261,14 +267,17 @@ class Evaluator:
                     return getattr(recv, m)(*args)
                 except IndexError as err:
                     raise PyRaise("IndexError", str(err))
-            if isinstance(recv, re.Pattern) and m in ("match", "search", "fullmatch", "findall", "split", "sub"):
-                return getattr(recv, m)(*args, **kw)
+            if isinstance(recv, re.Pattern) and m in ("match", "search", "fullmatch", "findall", "split", "sub", "finditer"):
+                res_ = getattr(recv, m)(*args, **kw)
+                return list(res_) if m == "finditer" else res_
             if isinstance(recv, re.Match) and m in MATCH_METHODS:
                 try:
                     return getattr(recv, m)(*args)
                 except IndexError as err:
                     raise PyRaise("IndexError", str(err))
             if isinstance(recv, dict) and m in ("get", "keys", "values", "items"):
+                return getattr(recv, m)(*args)
+            if isinstance(recv, (set, frozenset)) and m in ("union", "add", "update", "intersection", "difference", "discard"):
                 return getattr(recv, m)(*args)
             if isinstance(recv, tuple) and m in ("index", "count"):
                 return getattr(recv, m)(*args)
@@ -277,6 +286,10 @@ class Evaluator:
             if isinstance(recv, (str, int)) and m in ("match", "search"):
                 raise PyRaise("AttributeError", "%s.%s" % (type(recv).__name__, m))
             raise Unsupported("method %s on %s" % (m, type(recv).__name__))
+        # any other callee expression (`cls.alloc_opt_list()(text)`, `table[k](x)`): evaluate it, call the result
+        callee = self.ev(fn, env)
+        if callable(callee):
+            return callee(*args, **kw)
         raise Unsupported("call form")
 
     # ------------------------------------------------------------------ statements
